@@ -1,6 +1,7 @@
 package world
 
 import (
+	"fmt"
 	"strings"
 	"time"
 )
@@ -64,6 +65,14 @@ func genC07(r *Rng) *Plan {
 				Arg: r.Pick0(0, 0, -10, -290, -299, -301, -310, -3600, 60, 3600, -86400)}
 			if ep == "sign_out" {
 				st.Method = r.Pick("GET", "POST")
+			}
+			if ep != "start" && r.Chance(1, 4) {
+				// a second redirect_uri elsewhere in the request: the signed in-domain one and another one
+				st.Body = redirectCorpus[r.Intn(len(redirectCorpus))]
+				st.Arg2 = r.Intn(2)
+				if r.Chance(2, 3) {
+					st.Str, st.Sub, st.Arg = "https://app1."+RootDomain+"/", "good", 0
+				}
 			}
 			if ep == "start" && r.Chance(1, 3) {
 				st.Name = redirectCorpus[r.Intn(len(redirectCorpus))] // the outer redirect is attacker-chosen too
@@ -193,6 +202,11 @@ func idpFaultGrammar(r *Rng, provider string) (endpoint string, a Answer) {
 		a = Answer{Patch: map[string]interface{}{"email_verified": "true"}, Tag: "verified-as-string"}
 	case 13:
 		a = Answer{Patch: map[string]interface{}{"access_token": ""}, Tag: "empty-access-token"}
+	}
+	if r.Chance(1, 6) {
+		// a perfectly well-formed answer under a status that is not success
+		st := r.Pick0(201, 202, 204, 206, 301, 302, 400, 401, 403, 404, 409, 418, 429, 500, 502, 503)
+		a = Answer{Status: st, Genuine: true, Tag: fmt.Sprintf("genuine-body-status-%d", st)}
 	}
 	if endpoint == "token" {
 		// id_token shapes (Google reads the email out of it; Okta ignores it)
